@@ -784,4 +784,144 @@ theorem run_reads_in_order (rolled circ : List TCmd) (S T : Nat)
   rw [map_eq_map_range_getD, hrl]
 
 
+/-! ### the measurements of the unrolled circuits satisfy the side conditions of the sample theorems -/
+
+theorem measuredRegs_append (a b : List TCmd) : measuredRegs (a ++ b) = measuredRegs a ++ measuredRegs b := by
+  simp [measuredRegs]
+
+theorem measuredRegs_flatMap {α : Type} (l : List α) (F : α → List TCmd) :
+    measuredRegs (l.flatMap F) = l.flatMap fun a => measuredRegs (F a) := by
+  induction l with
+  | nil => simp [measuredRegs]
+  | cons a l ih => simp [List.flatMap_cons, measuredRegs_append, ih]
+
+/-- the measurements of one bin, instantiated through any renaming `f` of the slots -/
+theorem measuredRegs_map_apply (cfg : Cfg) (rolled : List TCmd) (f : Nat → Nat) (t : Nat)
+    (hne : ∀ c ∈ rolled, c.meas = true → c.regs ≠ []) :
+    measuredRegs (rolled.map fun c => applyOp cfg c (c.regs.map f) t) = (measuredRegs rolled).map f := by
+  induction rolled with
+  | nil => simp [measuredRegs]
+  | cons c cs ih =>
+    have ih' := ih (fun x hx => hne x (by simp [hx]))
+    simp only [measuredRegs, List.map_cons, List.filter_cons, applyOp] at ih' ⊢
+    by_cases hm : c.meas = true
+    · have hr := hne c (by simp) hm
+      simp only [hm, if_true, List.map_cons]
+      rw [ih']
+      congr 1
+      cases hc : c.regs with
+      | nil => exact absurd hc hr
+      | cons a as => simp
+    · simp only [hm, if_false]
+      exact ih'
+
+/-- blocks of equal length: the `g`-th group of the concatenation is the `g`-th block -/
+theorem grp_flatMap_blocks (n : Nat) (B : Nat → List Nat) (hB : ∀ g, (B g).length = n) :
+    ∀ G, ((List.range G).flatMap B).length = G * n ∧
+      ∀ g, g < G → grp ((List.range G).flatMap B) n g = B g := by
+  intro G
+  induction G with
+  | zero => exact ⟨by simp, fun g hg => by omega⟩
+  | succ G ih =>
+    have hlen : ((List.range (G + 1)).flatMap B).length = (G + 1) * n := by
+      rw [List.range_succ, List.flatMap_append, List.length_append, ih.1]
+      simp [hB, Nat.succ_mul]
+    refine ⟨hlen, ?_⟩
+    intro g hg
+    rw [List.range_succ, List.flatMap_append]
+    simp only [List.flatMap_cons, List.flatMap_nil, List.append_nil]
+    unfold grp
+    by_cases hgG : g < G
+    · rw [← ih.2 g hgG]
+      unfold grp
+      apply List.map_congr_left
+      intro k hk
+      simp only [List.mem_range] at hk
+      have hlt : g * n + k < ((List.range G).flatMap B).length := by
+        rw [ih.1]
+        have : (g + 1) * n ≤ G * n := Nat.mul_le_mul_right _ hgG
+        rw [Nat.succ_mul] at this; omega
+      simp only [List.getD_eq_getElem?_getD]
+      rw [List.getElem?_append_left hlt]
+    · have e : g = G := by omega
+      subst e
+      apply List.ext_getElem
+      · simp [hB]
+      · intro k h1 h2
+        simp only [List.length_map, List.length_range] at h1
+        simp only [List.getElem_map, List.getElem_range, List.getD_eq_getElem?_getD]
+        rw [List.getElem?_append_right (by rw [ih.1]; omega), ih.1]
+        have : g * n + k - g * n = k := by omega
+        rw [this]
+        simp [h2]
+
+theorem nodup_map_of_inj_on {l : List Nat} {f : Nat → Nat} (hl : l.Nodup)
+    (hf : ∀ a ∈ l, ∀ b ∈ l, f a = f b → a = b) : (l.map f).Nodup := by
+  induction l with
+  | nil => simp
+  | cons a l ih =>
+    simp only [List.nodup_cons, List.map_cons, List.mem_map, not_exists, not_and] at hl ⊢
+    refine ⟨?_, ih hl.2 (fun x hx y hy => hf x (by simp [hx]) y (by simp [hy]))⟩
+    intro x hx e
+    have := hf x (by simp [hx]) a (by simp) e
+    subst this
+    exact hl.1 hx
+
+/-- measurement data of a circuit given bin by bin through slot renamings `Q g` -/
+theorem measured_of_bins (cfg : Cfg) (rolled : List TCmd) (S : Nat) (Q : Nat → Nat → Nat) (circ : List TCmd)
+    (hcirc : circ = (List.range S).flatMap fun s => (List.range cfg.timebins).flatMap fun i =>
+      rolled.map fun c => applyOp cfg c (c.regs.map (Q (s * cfg.timebins + i))) i)
+    (hne : ∀ c ∈ rolled, c.meas = true → c.regs ≠ [])
+    (hslots : (measuredRegs rolled).Nodup)
+    (hinj : ∀ g, g < S * cfg.timebins → ∀ a ∈ measuredRegs rolled, ∀ b ∈ measuredRegs rolled,
+      Q g a = Q g b → a = b) :
+    (measuredRegs circ).length = S * cfg.timebins * (measuredRegs rolled).length ∧
+    ∀ g, g < S * cfg.timebins → (grp (measuredRegs circ) (measuredRegs rolled).length g).Nodup := by
+  have hms : measuredRegs circ =
+      (List.range (S * cfg.timebins)).flatMap fun g => (measuredRegs rolled).map (Q g) := by
+    rw [hcirc, measuredRegs_flatMap, range_mul_flatMap]
+    apply flatMap_congr'
+    intro s _
+    rw [measuredRegs_flatMap]
+    apply flatMap_congr'
+    intro i _
+    exact measuredRegs_map_apply cfg rolled _ i hne
+  have hblocks := grp_flatMap_blocks (measuredRegs rolled).length
+    (fun g => (measuredRegs rolled).map (Q g)) (fun g => by simp) (S * cfg.timebins)
+  rw [hms]
+  refine ⟨hblocks.1, ?_⟩
+  intro g hg
+  rw [hblocks.2 g hg]
+  exact nodup_map_of_inj_on hslots (hinj g hg)
+
+/-- the shift-unrolled circuit performs `S·T` groups of `n` measurements on pairwise distinct subsystems -/
+theorem shift_side_conditions (cfg : Cfg) (rolled : List TCmd) (S : Nat) (q : List Nat) (hq : q.Nodup)
+    (hne : ∀ c ∈ rolled, c.meas = true → c.regs ≠ []) (hslots : (measuredRegs rolled).Nodup)
+    (hlt : ∀ j ∈ measuredRegs rolled, j < q.length) :
+    (measuredRegs (unrollProgram cfg false rolled S q)).length =
+        S * cfg.timebins * (measuredRegs rolled).length ∧
+    ∀ g, g < S * cfg.timebins →
+      (grp (measuredRegs (unrollProgram cfg false rolled S q)) (measuredRegs rolled).length g).Nodup := by
+  apply measured_of_bins cfg rolled S (fun g j => (regAt cfg false g q).getD j 0) _ _ hne hslots
+  · intro g _ a ha b hb e
+    have hp := regAt_perm cfg false g q
+    exact (List.getD_inj (by rw [hp.length_eq]; exact hlt a ha) (by rw [hp.length_eq]; exact hlt b hb)
+      (hp.nodup_iff.mpr hq)).mp e
+  · unfold unrollProgram
+    rw [shotsLoop_shift]
+    rfl
+
+/-- the space-unrolled circuit on a long enough fresh register, likewise -/
+theorem space_side_conditions (cfg : Cfg) (rolled : List TCmd) (S C L : Nat)
+    (hc : ∀ c ∈ rolled, ∀ j ∈ c.regs, j < C) (hL : S * cfg.timebins + C ≤ L + 1)
+    (hne : ∀ c ∈ rolled, c.meas = true → c.regs ≠ []) (hslots : (measuredRegs rolled).Nodup) :
+    (measuredRegs (unrollProgram cfg true rolled S (List.range L))).length =
+        S * cfg.timebins * (measuredRegs rolled).length ∧
+    ∀ g, g < S * cfg.timebins →
+      (grp (measuredRegs (unrollProgram cfg true rolled S (List.range L))) (measuredRegs rolled).length g).Nodup := by
+  apply measured_of_bins cfg rolled S (fun g j => j + g) _ _ hne hslots
+  · intro g _ a _ b _ e; omega
+  · exact space_unroll_range cfg rolled S C L hc hL
+
+
 end SFV.Tdm
